@@ -16,7 +16,7 @@ From Coq Require Import String.
 From Coq Require Import List NArith Bool.
 Import ListNotations.
 From TV Require Import Lib.Obs C08.Base C08.BaseProofs C08.Model C08.Run
-                       C08.Proofs C08.Proofs2 C08.ProofsChunk C08.ProofsFuel C08.Proofs3 C08.Desc Gen.C08_src Gen.C08_equiv.
+                       C08.Proofs C08.Proofs2 C08.ProofsChunk C08.ProofsFuel C08.Proofs3 C08.ProofsP4 C08.Desc Gen.C08_src Gen.C08_equiv.
 
 (* ===== (REF) every segmentation gives the strict reader's answer ===== *)
 
@@ -277,6 +277,65 @@ Theorem C08_second_continue_is_refused :
     fetch_sent whole_ops inflate gflush gnew c g0 b = Res (OErr EConnClosed) false [] true.
 Proof. exact @repeated_continue_rejected. Qed.
 Print Assumptions C08_second_continue_is_refused.
+
+(* ===== truncation (phase 4): a response cut ANYWHERE and followed by EOF is an error =====
+   wf_stream c b body (C08/ProofsP4.v): b is zero or more well-formed interim responses followed by
+   one message whose head parses and that is body-less (HEAD / 304; b ends with the head) or framed
+   by Content-Length (exactly that many bytes follow) or by chunked coding (any well-formed chunks,
+   any size spellings, last-chunk and CRLF); body is the body it carries.  For every such stream
+   and EVERY cut point (inside an interim head, the head, a chunk-size line, chunk data, a chunk
+   terminator, the last-chunk line ...), decompress_response off: the strict reader of the proper
+   prefix reports an error, never a response, and the bytes it had given to streaming_callback are
+   a prefix of the body.  (Close-delimited bodies cannot be told from truncated ones; for them only
+   cuts inside the head are errors: C08_cut_inside_head.) *)
+Theorem C08_truncated_response_is_an_error :
+  forall G inflate gflush gnew c (g0 : G) b body,
+    decompress c = false -> wf_stream c b body ->
+    forall p x, x <> [] -> p ++ x = b ->
+    exists k e st sn,
+      fetch whole_ops inflate gflush gnew c g0 p = Res (OErr k) e st sn /\ exists y, st ++ y = body.
+Proof.
+  intros G inflate gflush gnew c g0 b body D W p x NX E.
+  exact (truncated_stream_is_an_error inflate gflush gnew c g0 D b body W p x NX E).
+Qed.
+Print Assumptions C08_truncated_response_is_an_error.
+
+(* ... and, by segmentation independence, so does the client however the prefix arrives *)
+Theorem C08_truncated_response_is_an_error_any_segmentation :
+  forall c t b body, decompress c = false -> wf_stream c b body ->
+    forall segs x, x <> [] -> concat segs ++ x = b ->
+    exists k e st sn, client_seg c t segs = Res (OErr k) e st sn /\ exists y, st ++ y = body.
+Proof.
+  intros c t b body D W segs x NX E. rewrite (client_seg_eq_strict_plain c t segs D).
+  exact (truncated_stream_is_an_error inflate_tbl flush_tbl (fun t => t) c t D b body W _ x NX E).
+Qed.
+Print Assumptions C08_truncated_response_is_an_error_any_segmentation.
+
+Theorem C08_cut_inside_head :
+  forall G inflate gflush gnew c (g0 : G) b hd rest p x,
+    head_at c b hd rest -> p ++ x = b -> length p < length hd ->
+    fetch whole_ops inflate gflush gnew c g0 p = Res (OErr EStreamClosed) true [] false.
+Proof. exact @cut_in_head. Qed.
+Print Assumptions C08_cut_inside_head.
+
+(* the status-line grammar `HTTP/1.<d> SP <ddd> SP <reason>` is read back exactly, and nothing else
+   is accepted *)
+Theorem C08_status_line_roundtrip :
+  forall minor c1 c2 c3 reason,
+    is_digit minor = true -> is_digit c1 = true -> is_digit c2 = true -> is_digit c3 = true ->
+    forallb is_reason_char reason = true ->
+    parse_status_line (render_status minor c1 c2 c3 reason)
+    = Some (dec_val 0 [c1; c2; c3], match reason with [] => None | _ => Some reason end).
+Proof. exact status_line_roundtrip. Qed.
+Print Assumptions C08_status_line_roundtrip.
+
+Theorem C08_status_line_only_that_grammar :
+  forall l code reason, parse_status_line l = Some (code, reason) ->
+    exists minor c1 c2 c3 r,
+      l = render_status minor c1 c2 c3 r /\ is_digit c1 = true /\ is_digit c2 = true /\
+      is_digit c3 = true /\ code = dec_val 0 [c1; c2; c3] /\ forallb is_reason_char r = true.
+Proof. exact status_line_needs_three_digits. Qed.
+Print Assumptions C08_status_line_only_that_grammar.
 
 (* ===== the framing rules read from the source text are the model's =====
    src_desc is regenerated from tornado/http1connection.py on every run by translators/c08_src.py
